@@ -122,6 +122,9 @@ def make_bus_class():
                 ctx.rec('DX', bus=self._vfw_name, ev=lab, caller=caller, exc=type(ex).__name__)
                 raise
             ctx.rec('DR', bus=self._vfw_name, ev=lab, caller=caller, same=(r is event))
+            if self.max_history_size and ctx.cfg.get('observe_history'):
+                # buses with a history limit: what the history looks like right after every accepted dispatch (C13's generic clauses)
+                ctx.obs('after_dispatch', bus=self)
             return r
 
     return HBus
